@@ -195,7 +195,8 @@ class Environment:
         self._now = next_event.time
 
         try:
-            if self._trace:
+            if self._trace and not next_event.cancelled:
+                # Cancelled Events are dropped without being executed.
                 self._trace_event(next_event)
             next_event.execute()
         except Exception as e:
